@@ -337,7 +337,7 @@ func (p *polling) DoWrite(ctx *types.HttpContext, data types.BufferInterface, op
 		return
 	}
 
-	encoding := utils.Contains(ctx.Headers().Peek("Accept-Encoding"), []string{"gzip", "deflate", "br", "zstd"})
+	encoding := acceptedCoding(ctx.Headers().Peek("Accept-Encoding"), []string{"gzip", "deflate", "br", "zstd"})
 	if encoding == "" {
 		respond(data, strconv.Itoa(data.Len()))
 		return
@@ -451,4 +451,27 @@ func (p *polling) headers(ctx *types.HttpContext, headers *utils.ParameterBag) *
 	headers.Set("Cache-Control", "no-store")
 	p.Emit("headers", headers, ctx)
 	return headers
+}
+
+// The first of the offered codings that the Accept-Encoding header lists as a
+// whole token with a non-zero weight.
+func acceptedCoding(header string, offered []string) string {
+	accepted := map[string]bool{}
+	for _, item := range strings.Split(header, ",") {
+		name, params, _ := strings.Cut(item, ";")
+		ok := true
+		for _, param := range strings.Split(params, ";") {
+			if k, v, _ := strings.Cut(strings.TrimSpace(param), "="); strings.EqualFold(strings.TrimSpace(k), "q") {
+				q, err := strconv.ParseFloat(strings.TrimSpace(v), 64)
+				ok = err == nil && q > 0
+			}
+		}
+		accepted[strings.ToLower(strings.TrimSpace(name))] = ok
+	}
+	for _, coding := range offered {
+		if accepted[coding] {
+			return coding
+		}
+	}
+	return ""
 }
